@@ -141,6 +141,11 @@ def star_scene(rng, h=44, w=52):
         fw = rng.choice([3.0, 3.0, 1.6, 5.0])
         data += m.evaluate(x, y, rng.uniform(80, 600), px, py, fw)
         pos.append((px, py))
+    if rng.random() < 0.35:      # a bright source whose window is trimmed by the left / bottom edge of the frame
+        ex, ey = (rng.uniform(0.2, 1.6), rng.uniform(8, 24)) if rng.random() < 0.5 else (rng.uniform(16, w - 16), rng.uniform(0.2, 1.6))
+        if all((ex - a) ** 2 + (ey - b) ** 2 > 100 for a, b in pos):
+            data += m.evaluate(x, y, rng.uniform(300, 600), ex, ey, 3.0)
+            pos.append((ex, ey))
     data += np.random.default_rng(rng.randrange(10**6)).normal(0, 1.0, (h, w))
     data[30:40, 0:12] -= 6.0                                           # a negative region
     if rng.random() < 0.6:
@@ -241,6 +246,11 @@ def rec_star(seed):
                      if which == 'dao' else None)
         pk = [[fk(a), fk(b)] for a, b in zip(loose['xcentroid'], loose['ycentroid'])] if loose is not None else [[r['x'], r['y']] for r in rows]
     rec['peaks'] = pk if pk else [[0, 0]]
+    # isolated true sources (no other source within 9 px): a row that belongs to one (within 3 px) is centred on it (within 1.2 px; the
+    # centre of mass of a window trimmed by the frame edge is biased by a fraction of a pixel only); every centroid lies on the frame
+    iso_src = [p for p in pos if all(q is p or (q[0] - p[0]) ** 2 + (q[1] - p[1]) ** 2 > 81 for q in pos) and not (p[1] >= 28 and p[0] < 14) and not (3 <= p[1] <= 10 and 18 <= p[0] <= 25)]
+    rec['w'], rec['h'] = fk(data.shape[1] - 0.5), fk(data.shape[0] - 0.5)
+    rec['truth'] = [[fk(a), fk(b)] for a, b in iso_src] if (not use_xy and seed % 5 != 0) else []
     out.append(rec)
     # relation: tightening the sharpness bound removes exactly the rows violating it (DAO only, no brightest)
     if which == 'dao' and not brightest and t is not None:
